@@ -202,7 +202,7 @@ PROPS = {
               "The protocol the model describes is re-extracted from both cache functions on every run and proved equal to the model's expectation (CE/Gen/CheckSession.lean). "
               "Runtime observation: the harness built with -race runs 2-64 goroutines under GOMAXPROCS 1-16, each with its own marshalers/unmarshalers/encoders/decoders/validators and all sharing one iterator.Session and one builder.Session, on reflect-made types no cache has seen (first use races on the caches), unsupported kinds included; every result is compared with the job run alone; any race report is a violation",
         note="partial (level other): data-race freedom of the compiled program is observed by the race detector, not proved - the Go memory model at access granularity is not modelled; the theorems assume sync.Map / sync.WaitGroup are linearizable with Done happening-before Wait's return. Documents that differ only in Go's random map order are compared as data (Lean TREE.EQ)",
-        level="other", n_quick=160, n_thorough=8000, shards=8, race=True, timeout_quick=900,
+        level="other", n_quick=160, n_thorough=3200, shards=8, race=True, timeout_quick=900, timeout_thorough=3600,
         lean_modules=["CE.Props.C17", "CE.Cache.Proofs", "CE.Gen.CheckSession"],
         rule="per case 3-7 fresh struct types (one in five of an unsupported kind) x 7 jobs each + 4 event-level jobs; goroutines in {2,3,4,8,16,32,(64)}, GOMAXPROCS in {1,2,4,8,16}; every goroutine runs all jobs in its own random order; distinct by job list",
         trusted_base=COMMON_TB + ["Go race detector (runtime observation only)", "sync.Map and sync.WaitGroup assumed linearizable"],
